@@ -2,6 +2,8 @@ package main
 
 import (
 	"fmt"
+	"os"
+	"path/filepath"
 	"regexp"
 	"sort"
 	"strings"
@@ -21,6 +23,9 @@ import (
 //	N group <cluster> <group> | N delgroup <cluster> <group>
 //	N shift <ms>                            stored instants move back (≡ the clock advanced)
 //	N eval <cluster> <group> <status>       resolved: … <acc bits, one per module in cfg order>
+//	N conf <mod;mod;…>                      mod = name:threshold:interval:send-interval:once:close:allowRe:denyRe, "-" = not set:
+//	                                        the REAL Coordinator.Configure on that notifier section; prints what
+//	                                        notifyModule will read per module, its lists, and the minimum interval
 //
 // Output of eval: notes=<sorted mod/status/id/start/close>, ids renamed to first-occurrence indices,
 // start as virtual milliseconds since the case began.
@@ -32,6 +37,31 @@ func genNotifier(g *gen) {
 	groups := []string{"g0", "g1", "x 2"}
 	for i := 0; i < n; i++ {
 		g.newCase()
+		if i%5 == 3 {
+			// the configuration phase: which settings each module ends up with
+			nm := 1 + g.intn(3)
+			var mods []string
+			optInt := func(vals ...int64) string {
+				if g.chance(1, 2) {
+					return "-"
+				}
+				return fmt.Sprint(g.pick(vals...))
+			}
+			optBool := func() string { return g.pickS("-", "0", "1") }
+			for m := 0; m < nm; m++ {
+				allow, deny := "-", "-"
+				if g.chance(1, 2) {
+					allow = hexName(g.pickS("^g", "0$", "^team-a"))
+				}
+				if g.chance(1, 2) {
+					deny = hexName(g.pickS("1$", "^x", "test"))
+				}
+				mods = append(mods, fmt.Sprintf("m%d:%s:%s:%s:%s:%s:%s:%s", m, optInt(1, 2, 3, 4), optInt(5, 30, 60, 300), optInt(0, 10, 120, 600),
+					optBool(), optBool(), allow, deny))
+			}
+			g.emit("N conf %s", strings.Join(mods, ";"))
+			continue
+		}
 		nm := 1 + g.intn(3)
 		var mods []string
 		for m := 0; m < nm; m++ {
@@ -101,6 +131,68 @@ func genNotifier(g *gen) {
 			}
 		}
 	}
+}
+
+// notifierConf runs the real Configure of the notifier coordinator on a notifier section built from the spec.
+var notifierConfTmpl string
+
+func notifierConf(spec string) (out string) {
+	if notifierConfTmpl == "" {
+		dir, err := os.MkdirTemp("", "burrowverif-nconf-")
+		if err != nil {
+			return "conf tmpfail"
+		}
+		notifierConfTmpl = filepath.Join(dir, "open.tmpl")
+		_ = os.WriteFile(notifierConfTmpl, []byte("{{.Cluster}} {{.Group}}"), 0o644)
+	}
+	viper.Reset()
+	defer viper.Reset()
+	defer func() {
+		if rec := recover(); rec != nil {
+			out = "conf panic"
+		}
+	}()
+	var names []string
+	for _, ms := range strings.Split(spec, ";") {
+		p := strings.Split(ms, ":")
+		root := "notifier." + p[0] + "."
+		names = append(names, p[0])
+		viper.Set(root+"class-name", "null")
+		viper.Set(root+"template-open", notifierConfTmpl)
+		viper.Set(root+"template-close", notifierConfTmpl)
+		for i, key := range []string{"threshold", "interval", "send-interval"} {
+			if p[1+i] != "-" {
+				viper.Set(root+key, atoi(p[1+i]))
+			}
+		}
+		for i, key := range []string{"send-once", "send-close"} {
+			if p[4+i] != "-" {
+				viper.Set(root+key, p[4+i] == "1")
+			}
+		}
+		for i, key := range []string{"group-allowlist", "group-denylist"} {
+			if p[6+i] != "-" {
+				viper.Set(root+key, unhexName(p[6+i]))
+			}
+		}
+	}
+	n := verifhook.ConfigureNotifier(&protocol.ApplicationContext{Logger: zap.NewNop()})
+	lists := n.ModuleLists()
+	sort.Strings(names)
+	var parts, lparts []string
+	for _, name := range names {
+		root := "notifier." + name + "."
+		l, ok := lists[name]
+		if !ok {
+			parts = append(parts, name+":missing")
+			lparts = append(lparts, name+":missing")
+			continue
+		}
+		parts = append(parts, fmt.Sprintf("%s:%d/%d/%s/%s", name, viper.GetInt(root+"threshold"), viper.GetInt(root+"send-interval"),
+			bit(viper.GetBool(root+"send-once")), bit(viper.GetBool(root+"send-close"))))
+		lparts = append(lparts, fmt.Sprintf("%s:%s/%s", name, hexName(l[0]), hexName(l[1])))
+	}
+	return fmt.Sprintf("conf min=%d mods=%s lists=%s", n.MinInterval(), strings.Join(parts, ";"), strings.Join(lparts, ";"))
 }
 
 type recNote struct {
@@ -193,6 +285,9 @@ func runNotifier(r *runner) {
 			nr.tRef = time.Now()
 			r.resolve("N cfg %s", strings.Join(resolved, ";"))
 			r.reply("ok")
+		case "conf":
+			r.resolve("%s", line)
+			r.reply("%s", notifierConf(f[2]))
 		case "group":
 			r.resolve("%s", line)
 			nr.n.AddGroup(unhexName(f[2]), unhexName(f[3]), time.Hour)
